@@ -1,6 +1,7 @@
 """C18 - copies and derived objects share no mutable state with their source."""
 import ast
 
+from ..typedispatch import calls_in, follow
 from ..model import AnalysisError, attr_chain, call_name, if_chain, stmts_in
 
 EXPLANATION = (
@@ -297,20 +298,26 @@ def adoption(ctx):
                    "segment + x builds a path out of the operand objects themselves: linking start points and later edits of the path rewrite the operands")
     # Path.__add__ / __radd__ with a PathSegment operand
     pa = ctx.fn("Path.__add__", "R18.3")
-    src = ast.unparse(pa)
     ia = ctx.fn("Path.__iadd__", "R18.3")
-    seg_branch = None
-    for test, body in if_chain([s for s in ia.body if isinstance(s, ast.If)][0]):
-        if test is not None and ast.unparse(test) == "isinstance(other, PathSegment)":
-            seg_branch = body
-    ctx.need(seg_branch is not None, "R18.3", "Path.__iadd__: PathSegment branch not found")
-    iadd_adopts = ast.unparse(seg_branch[0]).replace(" ", "") == "self.append(other)"
-    add_copies = "copy(other)" in src
+    oi = ia.args.args[1].arg
+    seg_path = follow(ctx, "R18.3", ia, {oi: "Line"})
+    # does `path += segment` store the operand object itself?
+    iadd_adopts = bool(calls_in(seg_path.stmts, lambda c: isinstance(c.func, ast.Attribute) and c.func.attr in ("append", "insert", "extend")
+                                and any(isinstance(a, ast.Name) and a.id == oi for a in c.args)))
+    oa = pa.args.args[1].arg
+    add_path = follow(ctx, "R18.3", pa, {oa: "Line"})
+    # in `path + segment` the operand is replaced by a copy before it is handed to +=
+    add_copies = any(isinstance(x, ast.Assign) and isinstance(x.targets[0], ast.Name) and x.targets[0].id == oa and isinstance(x.value, ast.Call)
+                     and (call_name(x.value) == "copy" or (isinstance(x.value.func, ast.Attribute) and x.value.func.attr == "__copy__")) for x in add_path.stmts) \
+        or bool(calls_in(add_path.stmts, lambda c: call_name(c) == "copy" and c.args and isinstance(c.args[0], ast.Name) and c.args[0].id == oa)
+                and not any(isinstance(x, ast.AugAssign) and isinstance(x.value, ast.Name) and x.value.id == oa for x in add_path.stmts))
     ctx.ob("R18.3", "Path.__add__[PathSegment]", (not iadd_adopts) or add_copies, "+= appends the operand object: %s; + copies it first: %s" % (iadd_adopts, add_copies), pa.lineno,
            "path + segment stores the operand segment in the new path and re-links its start point (Path('M9,9') + line changes line.start)")
     ra = ctx.fn("Path.__radd__", "R18.3")
-    adopt = [c for c in ast.walk(ra) if isinstance(c, ast.Call) and isinstance(c.func, ast.Attribute) and c.func.attr in ("insert", "append") and any(ast.unparse(a) == "other" for a in c.args)]
+    orr = ra.args.args[1].arg
+    adopt = [c for c in ast.walk(ra) if isinstance(c, ast.Call) and isinstance(c.func, ast.Attribute) and c.func.attr in ("insert", "append", "extend") and any(isinstance(a, ast.Name) and a.id == orr for a in c.args)]
     ctx.ob("R18.3", "Path.__radd__[PathSegment]", not adopt, "; ".join(ast.unparse(a) for a in adopt), ra.lineno, "segment + path stores the operand segment in the new path")
     sa = ctx.fn("Subpath.__radd__", "R18.3")
-    adopt = [c for c in ast.walk(sa) if isinstance(c, ast.Call) and isinstance(c.func, ast.Attribute) and c.func.attr in ("insert", "append") and any(ast.unparse(a) == "other" for a in c.args)]
+    osr = sa.args.args[1].arg
+    adopt = [c for c in ast.walk(sa) if isinstance(c, ast.Call) and isinstance(c.func, ast.Attribute) and c.func.attr in ("insert", "append", "extend") and any(isinstance(a, ast.Name) and a.id == osr for a in c.args)]
     ctx.ob("R18.3", "Subpath.__radd__[PathSegment]", not adopt, "; ".join(ast.unparse(a) for a in adopt), sa.lineno, "segment + subpath stores the operand segment in the new path")
